@@ -558,6 +558,7 @@ func bufRangeCheck(r *vrt.Result) string {
 		return fmt.Sprintf("range-blocked: Buffer.Range (or a later call) never returned: %v", r.Blocked)
 	}
 	variant := -1
+	pre := false
 	var visited []int
 	var callAt, retAt int64
 	ret := ""
@@ -568,6 +569,8 @@ func bufRangeCheck(r *vrt.Result) string {
 		switch e.Kind {
 		case "variant":
 			variant = e.Int(0)
+		case "pre-read":
+			pre = true
 		case "range-call":
 			callAt = e.Seq
 		case "range-fn":
@@ -612,7 +615,7 @@ func bufRangeCheck(r *vrt.Result) string {
 			return ""
 		}
 		if next != n {
-			return fmt.Sprintf("range-next: after Range (visited %v, %s) the next Get must return %d, got %d", visited, ret, n, next)
+			return fmt.Sprintf("range-next: after Range (visited %v, %s, uncommitted read before=%v) the next Get must return %d, got %d", visited, ret, pre, n, next)
 		}
 		return ""
 	}
@@ -642,6 +645,9 @@ func bufRangeCheck(r *vrt.Result) string {
 		if len(visited) == at {
 			if !strings.HasPrefix(ret, "panic") {
 				return "range-ret: the callback's panic did not propagate: " + ret
+			}
+			if pre && at == 1 {
+				return wantNext(0) // the rollback also discards the read made before Range started
 			}
 			return wantNext(at) // the value in flight was rolled back
 		}
